@@ -1535,7 +1535,7 @@ def collect_run(ctx, spec, tuner, sched, backend, store, rec, summaries, run_err
         name, md = mode_of(names, mode, m)
         bq.append((m, call_print_best(ts, name, md)))
         tq.append((m, call_best_config(tuner.best_config, m)))
-    df, eqs, meta_ok = None, [], True
+    df, eqs, meta_ok, df_again = None, [], True, None
     if mod is not None:
         er = mod.load_experiment(spec["name"], download_if_not_found=False)
         df = er.results
@@ -1543,6 +1543,17 @@ def collect_run(ctx, spec, tuner, sched, backend, store, rec, summaries, run_err
             and er.metadata.get("metric_mode") == mode
         if df is not None and len(df.columns):
             eqs = exp_queries(er, names)
+            # a loaded table is the caller's to edit (load_experiments_df annotates it in place): loading the same,
+            # unmodified experiment AGAIN in this process must give the stored table, not the edited object
+            snapshot = df.copy(deep=True)
+            try:
+                df["c17_probe_column"] = 1.0
+                if len(df) > 1:
+                    df.drop(df.index[-1], inplace=True)
+            except Exception:  # noqa: BLE001
+                pass
+            df_again = mod.load_experiment(spec["name"], download_if_not_found=False).results
+            df = snapshot
     events = []
     stores = list(store.store_sizes)
     for i, (dv, row) in enumerate(zip(deliveries, rows)):
@@ -1564,7 +1575,7 @@ def collect_run(ctx, spec, tuner, sched, backend, store, rec, summaries, run_err
     return dict(deliveries=deliveries, events=events, handed=handed, history=history, rows=rows, df=df,
                 overall=overall, per_trial=per_trial, backend_cfgs=backend_cfgs, bq=bq, tq=tq, table=table, eqs=eqs,
                 stores=stores, n_delivered=n_delivered, meta_ok=meta_ok, summaries=summaries, run_error=run_error,
-                split=split, run_model=None if split is not None else tuner_run_inputs(sched, backend, store, rec, run_error),
+                df_again=df_again, split=split, run_model=None if split is not None else tuner_run_inputs(sched, backend, store, rec, run_error),
                 legs_model=legs_inputs(sched, rec, split, run_error))
 
 
@@ -1825,6 +1836,13 @@ def run_cases(ctx, replay, corpus_only=False):
             ctx.violation("property", "best_experiment: metadata.json does not hold the scheduler's metric names/modes",
                           case=case, signature=dict(part="best_experiment", kind="run", scheduler=sched,
                                                     defect="metadata"))
+        if obs.get("df_again") is not None:
+            why = check_disk(obs["rows"], obs["df_again"])
+            if why:
+                ctx.violation("property", "disk: loading the experiment a second time (after the first loaded table "
+                              "was edited in place, the file untouched) does not give the stored table: " + why,
+                              case=case, signature=dict(part="disk", kind="run", scheduler=sched,
+                                                        defect="second_load_differs"))
         if obs["df"] is None and experiments_module(ctx) is not None and obs["rows"]:
             ctx.violation("property", "disk: load_experiment found no results table for %d rows" % len(obs["rows"]),
                           case=case, signature=dict(part="disk", kind="run", scheduler=sched, defect="no_table"))
